@@ -970,13 +970,36 @@ class FnGen(Gen):
                               ("call", ("id", f), [("int", 5)]),
                               ("assign", r1, None, ("call", ("id", f), [("int", 6)]))])
         if c == 10:
-            # recursion
+            # recursion, optionally with default arguments, an accumulator, another captured
+            # variable, and/or defined inside an enclosing function
             f, n, r1 = self.fresh("fn"), self.fresh("int"), self.fresh("any")
+            acc, cap, mk = self.fresh("int"), self.fresh("int"), self.fresh("fn")
             self.declare(r1, "any")
-            body = ("block", [("if", [(("cmp", ("id", n), [("<=", ("int", 1))]), ("block", [("int", 1)]))],
-                               ("block", [("bin", "*", ("id", n), ("call", ("id", f), [("bin", "-", ("id", n), ("int", 1))]))]))])
-            return ("block", [("assign", f, None, ("fn", [(("tid", n, None), None)], None, None, body)),
-                              ("assign", r1, None, ("call", ("id", f), [("int", 1 + self.r.below(6))]))])
+            variant = self.r.below(5)
+            params = [(("tid", n, None), None)]
+            rec_args = [("bin", "-", ("id", n), ("int", 1))]
+            base = ("int", 1)
+            step = ("bin", "*", ("id", n), None)
+            if variant in (1, 3, 4):
+                params.append((("tid", acc, None), ("int", self.r.below(3))))
+                rec_args.append(("bin", "+", ("id", acc), ("id", n)))
+                base = ("id", acc)
+                step = None
+            rec_call = ("call", ("id", f), rec_args)
+            rec = rec_call if step is None else ("bin", "*", ("id", n), rec_call)
+            if variant in (2, 3):
+                rec = ("bin", "+", rec, ("id", cap))
+            body = ("block", [("if", [(("cmp", ("id", n), [("<=", ("int", 1))]), ("block", [base]))], ("block", [rec]))])
+            fn = ("fn", params, None, None, body)
+            pre = [("assign", cap, None, ("int", 10 + self.r.below(5)))] if variant in (2, 3) else []
+            arg = ("int", 1 + self.r.below(6))
+            if variant == 4:
+                # the recursive function is created inside another function and returned
+                outer = ("fn", [], None, None, ("block", [("assign", f, None, fn), ("id", f)]))
+                g = self.fresh("fn")
+                return ("block", [("assign", mk, None, outer), ("assign", g, None, ("call", ("id", mk), [])),
+                                  ("assign", r1, None, ("tuple", [("call", ("id", g), [arg]), ("call", ("id", g), [arg, ("int", 7)])]))])
+            return ("block", pre + [("assign", f, None, fn), ("assign", r1, None, ("call", ("id", f), [arg]))])
         if c == 11:
             # closure factory; default value evaluated once
             mk, a, g, r1, b2 = self.fresh("fn"), self.fresh("int"), self.fresh("fn"), self.fresh("any"), self.fresh("int")
